@@ -124,9 +124,13 @@ R.abstractions[M_OUT + ":Output.write"] = [
     (
         "'\\n'.join((' ' * self._indent + s if s else s for s in string.split('\\n')))",
         "str",
-        "indentation of every non-empty line; its meaning is checked by the bounded tier of C11",
+        "indentation of every non-empty line: a function of the width in force and the text; its meaning (blanks before "
+        "every non-empty line) is checked by the bounded tier of C11",
+        ("indented", ["self._indent", "string"]),
     )
 ]
+R.uf("indented", ["int", "str"], "str",
+     native=lambda n, s: "\n".join((" " * n + l) if l else l for l in s.split("\n")))
 
 WRITE_PARAMS = {"string": "str", "flags": "int?", "new_line": "bool", "with_indent": "bool"}
 
@@ -143,6 +147,11 @@ c = R.contract(
         "%s == fmt_format(self._formatter, string) + ('\\n' if new_line else ''))" % (GATE, LAST),
         "[C11,C15] implies(%s and not (self._indent > 0 and with_indent) and not self._format_output, "
         "%s == fmt_remove(self._formatter, string) + ('\\n' if new_line else ''))" % (GATE, LAST),
+        # C11: whenever an indentation is in force (and asked for), what is formatted is the indented text
+        "[C11,C15] implies(%s and self._indent > 0 and with_indent and self._format_output, "
+        "%s == fmt_format(self._formatter, indented(self._indent, string)) + ('\\n' if new_line else ''))" % (GATE, LAST),
+        "[C11,C15] implies(%s and self._indent > 0 and with_indent and not self._format_output, "
+        "%s == fmt_remove(self._formatter, indented(self._indent, string)) + ('\\n' if new_line else ''))" % (GATE, LAST),
     ],
     modifies=STREAM_GHOST,
 )
